@@ -10,6 +10,7 @@ CONSTANTS Names <- NamesChain
           Variants = {"fresh", "tree"}
           HarmTypes = {"dir", "file", "link"}
           MaxEntries = 4
+          Reuse <- ReuseNone
           Devs = {}
 INVARIANTS Emit Confined NoStrayTouch NoTempLeft DoneClean WellFormed
 CHECK_DEADLOCK FALSE
